@@ -8,6 +8,7 @@ import (
 	"math"
 	"path"
 	"path/filepath"
+	"strings"
 
 	"reduction.dev/reduction/dkv/recovery"
 	"reduction.dev/reduction/proto/snapshotpb"
@@ -111,4 +112,19 @@ func pathSegment(id uint64) string {
 	buf := make([]byte, 8)
 	binary.BigEndian.PutUint64(buf, reversed)
 	return base64.RawURLEncoding.EncodeToString(buf)
+}
+
+// checkpointIDFromSnapshotPath decodes the checkpoint ID from a snapshot file
+// path like checkpoints/job-<pathSegment>.snapshot.
+func checkpointIDFromSnapshotPath(filePath string) (uint64, bool) {
+	name := strings.TrimSuffix(filepath.Base(filePath), ".snapshot")
+	segment, ok := strings.CutPrefix(name, "job-")
+	if !ok {
+		return 0, false
+	}
+	buf, err := base64.RawURLEncoding.DecodeString(segment)
+	if err != nil || len(buf) != 8 {
+		return 0, false
+	}
+	return math.MaxUint64 - binary.BigEndian.Uint64(buf), true
 }
